@@ -39,7 +39,7 @@ class Group:
 
     def __init__(self, name, unity, entry, functions, tier="quick", defines=(), c_sources=(),
                  loops=None, unwind=None, unwindset=(), checks=("--bounds-check", "--pointer-check"),
-                 timeout=300, bounded=None, includes=(), extra_cbmc=(), t9=None, mem_gb=10,
+                 timeout=300, bounded=None, includes=(), extra_cbmc=(), t9=None, mem_gb=10, reach=True,
                  loop_functions=(), replay=None, nondet_static=False, note=None, expected_loops=0, subst=None, cpp_sources=()):
         self.name = name              # e.g. C05/parse_dc16
         self.unity = unity            # path of the harness unity TU relative to /verif/contracts
@@ -57,6 +57,7 @@ class Group:
         self.includes = list(includes)
         self.extra_cbmc = list(extra_cbmc)
         self.mem_gb = mem_gb
+        self.reach = reach      # second pass: every loop back edge must be reachable under its contract
         self.replay = replay          # optional callable(group, failure, workdir) -> replay info
         self.note = note
         self.subst = dict(subst or {})
@@ -172,11 +173,17 @@ def run_group(g, scratch, tree):
                 fn, var = m.group(1), m.group(2)
                 deepest = var.endswith("^")      # "name^": the innermost declaration of that name
                 var = var.rstrip("^")
+                ordinal = None                   # "name#k": the k-th declaration of that name in source (scope-path) order
+                if "#" in var:
+                    var, o = var.split("#"); ordinal = int(o)
                 c = [x for x in syms if (x.startswith(fn + "::") or x.startswith(fn + "(")) and x.endswith("::" + var)
                      and "$" not in x]
                 if deepest and len(c) > 1:
                     m2 = max(x.count("::") for x in c)
                     c = [x for x in c if x.count("::") == m2]
+                if ordinal is not None and len(c) > ordinal:
+                    c.sort(key=lambda x: [int(t) if t.isdigit() else -1 for t in x.split("::")])
+                    c = [c[ordinal]]
                 if len(c) != 1:
                     bad.append("%s:%s -> %r" % (fn, var, c))
                     return "UNRESOLVED"
@@ -291,6 +298,52 @@ def run_group(g, scratch, tree):
     elif g.loops and (seen_base < g.expected_loops or seen_step < g.expected_loops or seen_base == 0):
         res["status"] = "undecided"
         res["reason"] = "loop contract silently dropped: %d base / %d step obligations, expected >= %d" % (seen_base, seen_step, max(1, g.expected_loops))
+    # Vacuity guard for loop contracts: the step/variant obligations of a loop whose body cannot be reached under
+    # its own invariant pass vacuously.  Second pass: every variant is replaced by the constant 0, so the
+    # "variant decreases" assertion (0 < 0) FAILS exactly when the loop's back edge is reachable.  One canary per loop.
+    if (g.loops and not res.get("dfcc_fallback") and res["status"] == "ok" and getattr(g, "reach", True)
+            and not os.environ.get("VERIF_NO_REACH")
+            and not [p for p in res["props"] if p["status"] == "FAILURE" and not p["desc"].startswith("canary")]):
+        with open(lc) as fh:
+            t2 = re.sub(r'"decreases"\s*:\s*"[^"]*"', '"decreases": "0"', fh.read())
+        lc2 = os.path.join(wd, "loops_reach.json")
+        with open(lc2, "w") as fh:
+            fh.write(t2)
+        r_gb = os.path.join(wd, "r.gb")
+        rc, so, se, _ = sh(["goto-instrument", "--dfcc", g.entry, "--apply-loop-contracts", "--loop-contracts-file", lc2, d_gb, r_gb], timeout=900, mem_gb=g.mem_gb)
+        reach = {}
+        if rc == 0:
+            cb2 = ["cbmc", r_gb, "--no-standard-checks", "--max-field-sensitivity-array-size", "1024", "--json-ui"]
+            if "--object-bits" not in g.extra_cbmc:
+                cb2 += ["--object-bits", "12"]
+            if g_unw:
+                cb2 += ["--unwind", str(g_unw)]
+            if g.unwindset:
+                cb2 += ["--unwindset", ",".join(g.unwindset)]
+            cb2 += g.extra_cbmc
+            res["cmds"].append(" ".join(cb2))
+            out2 = os.path.join(wd, "cbmc_reach.json")
+            ts = time.time()
+            rc, so, se, dt = sh(cb2, timeout=g.timeout, mem_gb=g.mem_gb, stdout_path=out2)
+            res["solver_s"] += time.time() - ts
+            try:
+                with open(out2) as fh:
+                    d2 = json.load(fh)
+                for item in d2:
+                    for p in item.get("result", []) if isinstance(item, dict) else []:
+                        if "loop_decreases" in p.get("property", ""):
+                            m = re.search(r"for loop (\S+)", p.get("description", ""))
+                            nm = m.group(1) if m else p["property"]
+                            reach[nm] = reach.get(nm, False) or p.get("status") == "FAILURE"
+            except Exception:
+                reach = {}
+        if not reach:
+            res["status"] = "undecided"
+            res["reason"] = "loop reachability pass produced no result (timeout or tool failure)"
+        for nm, ok in sorted(reach.items()):
+            res["props"].append({"id": "reach." + nm, "desc": "canary: back edge of loop %s is reachable under its contract (variant replaced by 0 must fail)" % nm,
+                                 "status": "FAILURE" if ok else "SUCCESS", "file": "", "line": 0, "function": ""})
+        res["loop_reach"] = reach
     res["wall_s"] = time.time() - t0
     return res
 
